@@ -573,6 +573,23 @@ class PhspConfig:
 cfg1, cfg2 = PhspConfig(1), PhspConfig(2)
 pair("equal_str_bound_methods_of_different_objects", EnergyDependentWidth(s, m0, w0, ma, mb, 1, 1, phsp_factor=cfg1.factor), EnergyDependentWidth(s, m0, w0, ma, mb, 1, 1, phsp_factor=cfg2.factor),
      "first: phsp_factor=PhspConfig(1).factor; second: phsp_factor=PhspConfig(2).factor (same qualified name, different state); ")
+# non-SymPy attributes of other kinds (the cache key cannot see them: only == on the stored expression protects the second call)
+from ampform.sympy import unevaluated, argument
+from typing import Any
+@unevaluated
+class Weighted(sp.Expr):
+    x: Any
+    weights: Any = argument(sympify=False)
+    def evaluate(self):
+        w = self.weights
+        if callable(w): return w(self.x)
+        if isinstance(w, dict): return sum(v * self.x**k for k, v in w.items())
+        return sum(v * self.x**k for k, v in enumerate(w))
+pair("attribute_dict_same_keys_other_values", Weighted(x, weights={1: 2, 2: 3}), Weighted(x, weights={1: 5, 2: 7}), "first: weights={1: 2, 2: 3}; second: weights={1: 5, 2: 7}; ")
+pair("attribute_dict_other_keys", Weighted(x, weights={1: 2, 2: 3}), Weighted(x, weights={1: 2, 3: 3}), "first: weights={1: 2, 2: 3}; second: weights={1: 2, 3: 3}; ")
+pair("attribute_list_other_values", Weighted(x, weights=[1, 2]), Weighted(x, weights=[1, 3]), "first: weights=[1, 2]; second: weights=[1, 3]; ")
+pair("attribute_nested_list", Weighted(x, weights=[1, 2, {"a": 1}.get("a")]), Weighted(x, weights=[1, 2, 2]), "first: weights=[1, 2, 1]; second: weights=[1, 2, 2]; ")
+# (closures and lambdas as attributes are outside the precondition: the record must be picklable)
 # truncated file at (sampled) prefix lengths
 d = fresh()
 try:
@@ -659,7 +676,8 @@ def scen_replay(seed, names, tier="quick"):
 
 def search(model=None, tier="quick"):
     for seed in (None, "0"):
-        r = scen_replay(seed, ["miss", "hit", "equal_str_different_phsp_factor", "equal_str_different_assumptions", "equal_hash_1/x_vs_1/x**2", "truncated", "foreign",
+        r = scen_replay(seed, ["miss", "hit", "equal_str_different_phsp_factor", "equal_str_different_assumptions", "equal_hash_1/x_vs_1/x**2", "attribute_dict_same_keys_other_values",
+                               "attribute_list_other_values", "truncated", "foreign",
                                "legacy_record", "pair_record", "killed_writer", "observer"], tier)()
         if r["reproduced"] or "error" in r:
             return r
@@ -818,6 +836,7 @@ def build(chk: Check) -> None:
             chk.struct(f"scenarios[{tagp}].{name}_returns_doit", r["ok"], F, witness=r, replay=scen_replay(seed, [name], tier), bounded=True)
         # the E3 proof assumes that == on expressions is structural equality incl. non-SymPy attributes (C14's contract): these
         # instance-level runs of the real function exercise that assumption with expressions that share str / hash / key
-        for name in ("equal_str_different_phsp_factor", "equal_str_different_assumptions", "equal_hash_1/x_vs_1/x**2", "equal_str_bound_methods_of_different_objects"):
+        for name in ("equal_str_different_phsp_factor", "equal_str_different_assumptions", "equal_hash_1/x_vs_1/x**2", "equal_str_bound_methods_of_different_objects",
+                     "attribute_dict_same_keys_other_values", "attribute_dict_other_keys", "attribute_list_other_values", "attribute_nested_list"):
             r = sc.get(name, {"ok": False, "observed": sc.get("error", "missing")})
             chk.struct(f"scenarios[{tagp}].collision[{name}].second_call_returns_its_own_doit", r["ok"], F, witness=r, replay=scen_replay(seed, [name], tier), bounded=True)
